@@ -36,6 +36,9 @@ def main():
         elif name in judged:
             outside += 1
             by = "not caught - judged outside the statement"
+            others = [c["check"] for c in row.get("caught_by_other_checks", [])]
+            if others:
+                by += " (reported by `./check %s`)" % "`, `./check ".join(others)
             first = judged[name][:220].replace("|", "/")
         else:
             missed += 1
